@@ -29,6 +29,7 @@ import (
 func init() {
 	verifKinds["c10.script"] = func(args []vsx) vsx { return verifC10Watchdog(verifC10Script, args) }
 	verifKinds["c10.proc"] = func(args []vsx) vsx { return verifC10Watchdog(verifC10Proc, args) }
+	verifKinds["c10.whendone"] = func(args []vsx) vsx { return verifC10Watchdog(verifC10WhenDone, args) }
 }
 
 // How long the harness waits for an expected event before declaring the run hung.
@@ -1281,11 +1282,23 @@ func verifC10Script(args []vsx) vsx {
 // (names) r (answers) failed peek -> (isRunning ((id ret (callbacks))...) done wait)
 // ---------------------------------------------------------------------------
 func verifC10Proc(args []vsx) vsx {
-	if len(args) != 5 {
+	if len(args) != 5 && len(args) != 6 {
 		return vL(vS("bad-case"))
+	}
+	// early: the client function returns at once and start() hands the process to runClient only
+	// after it has ended, so runClient registers its whenDone callback on a finished process
+	early := false
+	if len(args) == 6 {
+		if args[5].i != 0 && args[5].i != 1 {
+			return vL(vS("bad-case"))
+		}
+		early = args[5].i == 1
 	}
 	names := args[0].strs()
 	n, r := len(names), int(args[1].i)
+	if early && r != 0 {
+		return vL(vS("bad-case"))
+	}
 	failed, peek := args[3].i != 0, int(args[4].i)
 	seenName := map[string]bool{}
 	for _, nm := range names {
@@ -1336,6 +1349,12 @@ func verifC10Proc(args []vsx) vsx {
 				return errVerifC10Exit
 			}
 		}
+		if early {
+			if failed {
+				return errVerifC10Exit
+			}
+			return nil // at once: no request read, no output, before runClient has the process
+		}
 		<-goOn
 		if r < n && peek > 0 {
 			_, _ = io.ReadFull(in, make([]byte, peek))
@@ -1347,6 +1366,7 @@ func verifC10Proc(args []vsx) vsx {
 	}
 	var stdin *verifC10In
 	var local *localProcess
+	earlyStuck := false
 	real := runInProcess([]string{"verif-c10-proc"}, client)
 	starter := func(ctx context.Context, pipeStderr bool) (*process, error) {
 		p, err := real(ctx, pipeStderr)
@@ -1356,11 +1376,22 @@ func verifC10Proc(args []vsx) vsx {
 		local, _ = p.processController.(*localProcess)
 		stdin = &verifC10In{inner: p.stdin, seen: map[string]bool{}, plan: map[string]int{}, off: map[string]int{}}
 		p.stdin = stdin
+		if early && local != nil {
+			select {
+			case <-local.done: // the process is gone when start returns
+			case <-time.After(verifC10Wait()):
+				earlyStuck = true
+			}
+		}
 		return p, nil
 	}
 	cr, err := runClient(context.Background(), starter)
 	if err != nil {
 		return vErr("start")
+	}
+	if earlyStuck {
+		verifC10Hangs.Add(1)
+		return vL(vS("hang"), vS("client-function-that-returns-at-once-did-not-end-the-process"))
 	}
 	runner, ok := cr.(*clientProcessRunner)
 	if !ok || local == nil {
@@ -1421,8 +1452,21 @@ func verifC10Proc(args []vsx) vsx {
 			return problem != ""
 		}
 	}
+	if early {
+		// the reader meets the end of the output and cleans up; the sends come after that (refused)
+		if !verifC10Until(func() bool {
+			select {
+			case <-runner.done:
+				return true
+			default:
+				return false
+			}
+		}) {
+			problem = "reader-did-not-finish-after-the-client-function-returned"
+		}
+	}
 	for i := 0; i < n && problem == ""; i++ {
-		if i == r {
+		if i == r && !early {
 			// every answer has been delivered; then the sender enters the write the client never completes
 			if !verifC10Until(func() bool { return nfires() == len(answers) || clientFailed() }) {
 				problem = "answers-not-delivered"
@@ -1446,7 +1490,7 @@ func verifC10Proc(args []vsx) vsx {
 			problem = fmt.Sprintf("sendRequest-%d-did-not-return", i)
 		}
 	}
-	if problem == "" && r == n {
+	if problem == "" && r == n && !early {
 		if !verifC10Until(func() bool { return nfires() == len(answers) || clientFailed() }) {
 			problem = "answers-not-delivered"
 		}
@@ -1480,7 +1524,9 @@ func verifC10Proc(args []vsx) vsx {
 		return vL(vS("hang"), vS(problem))
 	}
 	// the exit notice (runClient's whenDone) runs in its own goroutine once the process is done
-	verifC10Until(func() bool { return !runner.isRunning() })
+	if !verifC10Until(func() bool { return !runner.isRunning() }) && early {
+		verifC10Hangs.Add(1) // (the tree is broken: later waits of this binary are cut short)
+	}
 	running := runner.isRunning()
 	done := false
 	select {
@@ -1506,6 +1552,96 @@ func verifC10Proc(args []vsx) vsx {
 		per = append(per, vL(vI(int64(i)), ret, vL(fs...)))
 	}
 	return vL(vBool(running), vL(vL(per...), vBool(done), vL(vI(*waitRes))))
+}
+
+// ---------------------------------------------------------------------------
+// c10.whendone: registrations and the exit, in the order of the script, on a REAL localProcess
+// made by runInProcess (the client function returns when the script says "exit").
+// ((0 k) | (1))... -> (exited ((k times-its-callbacks-ran)...)), keys in order of first registration
+// ---------------------------------------------------------------------------
+func verifC10WhenDone(args []vsx) vsx {
+	if len(args) != 1 || len(args[0].l) > 64 {
+		return vL(vS("bad-case"))
+	}
+	type act struct {
+		exit bool
+		k    int64
+	}
+	var acts []act
+	for _, a := range args[0].l {
+		switch {
+		case len(a.l) == 2 && a.l[0].i == 0 && a.l[1].i >= 0 && a.l[1].i < 64:
+			acts = append(acts, act{k: a.l[1].i})
+		case len(a.l) == 1 && a.l[0].i == 1:
+			acts = append(acts, act{exit: true})
+		default:
+			return vL(vS("bad-case"))
+		}
+	}
+	release := make(chan struct{})
+	client := func(_ context.Context, _ []string, _ io.ReadCloser, _, _ io.WriteCloser) error {
+		<-release
+		return nil
+	}
+	p, err := runInProcess([]string{"verif-c10-whendone"}, client)(context.Background(), false)
+	if err != nil {
+		return vErr("start")
+	}
+	local, ok := p.processController.(*localProcess)
+	if !ok {
+		close(release)
+		return vErr("start")
+	}
+	var mu sync.Mutex
+	counts := map[int64]int64{}
+	total := 0
+	var keys []int64
+	exited, registered := false, 0
+	for _, a := range acts {
+		if a.exit {
+			if !exited {
+				exited = true
+				close(release)
+				select {
+				case <-local.done:
+				case <-time.After(verifC10Wait()):
+					verifC10Hangs.Add(1)
+					return vL(vS("hang"), vS("process-did-not-end-after-its-function-returned"))
+				}
+			}
+			continue
+		}
+		k := a.k
+		if _, seen := counts[k]; !seen {
+			mu.Lock()
+			counts[k] = 0
+			mu.Unlock()
+			keys = append(keys, k)
+		}
+		registered++
+		local.whenDone(func(error) {
+			mu.Lock()
+			counts[k]++
+			total++
+			mu.Unlock()
+		})
+	}
+	if exited {
+		// every callback runs in a goroutine of its own: wait for the expected number (bounded)
+		if !verifC10Until(func() bool { mu.Lock(); defer mu.Unlock(); return total >= registered }) {
+			verifC10Hangs.Add(1) // (the tree is broken: later waits of this binary are cut short)
+		}
+	}
+	mu.Lock()
+	var per []vsx
+	for _, k := range keys {
+		per = append(per, vL(vI(k), vI(counts[k])))
+	}
+	mu.Unlock()
+	if !exited {
+		close(release)
+	}
+	return vL(vBool(exited), vL(per...))
 }
 
 // TestVerifConsts prints the constants of the compiled code as Coq definitions.
